@@ -99,6 +99,10 @@ class Inst:
         return f'<{self.cls.mod.name}.{self.cls.name}(){a}>'
 
 
+class FoldKeyError(AnalysisError):
+    """KeyError of the folded program"""
+
+
 class FoldIndexError(AnalysisError):
     """IndexError of the folded program (ends sequence-protocol loops)"""
 
@@ -367,6 +371,38 @@ class Folder:
                 else:
                     raise AnalysisError(
                         f'folding: del target {unparse(t)} at {mod.loc(t)}')
+        elif isinstance(st, ast.Try):
+            # lookups that fail with KeyError / IndexError in the folded
+            # program are caught by the handlers that name them
+            try:
+                try:
+                    self.block(st.body, env, mod, depth)
+                except (FoldKeyError, FoldIndexError) as ex:
+                    want = 'KeyError' if isinstance(ex, FoldKeyError) \
+                        else 'IndexError'
+                    for h in st.handlers:
+                        names = []
+                        if h.type is None:
+                            names = [want]
+                        else:
+                            for y in ([h.type] if not isinstance(
+                                    h.type, ast.Tuple) else h.type.elts):
+                                names.append(unparse(y))
+                        if want in names or 'LookupError' in names or \
+                                'Exception' in names or \
+                                'BaseException' in names:
+                            if h.name:
+                                raise AnalysisError(
+                                    'folding: handler binds the exception')
+                            self.block(h.body, env, mod, depth)
+                            break
+                    else:
+                        raise
+                else:
+                    self.block(st.orelse, env, mod, depth)
+            finally:
+                if st.finalbody:
+                    self.block(st.finalbody, env, mod, depth)
         else:
             raise AnalysisError(
                 f'folding: statement {type(st).__name__} at {mod.loc(st)} '
@@ -573,7 +609,11 @@ class Folder:
                     raise FoldIndexError(
                         f'folding: {unparse(e)} raises IndexError at '
                         f'{mod.loc(e)} (key {k!r})')
-                except (KeyError, TypeError) as ex:
+                except KeyError:
+                    raise FoldKeyError(
+                        f'folding: {unparse(e)} raises KeyError at '
+                        f'{mod.loc(e)} (key {k!r})')
+                except TypeError as ex:
                     raise AnalysisError(
                         f'folding: {unparse(e)} raises {type(ex).__name__} '
                         f'at {mod.loc(e)} (key {k!r})')
@@ -777,6 +817,13 @@ class Folder:
                     f'(at {mod.loc(node)}) - AttributeError at run time')
             return self.from_resolution(r, node, mod)
         if isinstance(o, ExtRef):
+            # the documented character-set constants of the string module
+            if o.dotted == 'string' and name in (
+                    'hexdigits', 'digits', 'octdigits', 'ascii_letters',
+                    'ascii_lowercase', 'ascii_uppercase', 'punctuation',
+                    'whitespace', 'printable'):
+                import string as _string
+                return getattr(_string, name)
             return ExtRef(f'{o.dotted}.{name}')
         if isinstance(o, tuple) and name in getattr(type(o), '_fields', ()):
             return getattr(o, name)
@@ -908,6 +955,14 @@ class Folder:
             return ('ntclass', _c.namedtuple(args[0], list(fields)))
         if isinstance(f, tuple) and len(f) == 2 and f[0] == 'ntclass':
             return f[1](*args, **kwargs)
+        if isinstance(f, ExtRef) and f.dotted == 're.compile' and args \
+                and isinstance(args[0], str) and all(
+                    isinstance(a, int) for a in args[1:]) and not kwargs:
+            import re as _re
+            try:
+                return ('repattern', _re.compile(*args))
+            except _re.error as ex:
+                raise AnalysisError(f'folding: re.compile({args[0]!r}): {ex}')
         if isinstance(f, ExtRef) and f.dotted in (
                 're.match', 're.fullmatch', 're.search') and len(
                     args) == 2 and all(isinstance(a, str) for a in args) \
@@ -990,6 +1045,23 @@ class Folder:
             except ValueError as ex:
                 raise AnalysisError(f'folding: int{tuple(args)!r} raises '
                                     f'ValueError at {mod.loc(e)}')
+        if name == 'map' and len(args) == 2 and not kwargs:
+            # consumed by list()/all()/any()/join in the folded language:
+            # the list of results, in order
+            return [self.apply(args[0], [x], {}, e, mod, depth)
+                    for x in self.iterate(args[1], e)]
+        if name == 'sum' and len(args) in (1, 2):
+            acc = args[1] if len(args) == 2 else 0
+            for x in self.iterate(args[0], e):
+                if isinstance(x, (Sym, Inst)) or isinstance(acc, Sym):
+                    raise AnalysisError('folding: symbolic sum')
+                acc = acc + x
+            return acc
+        if name in ('min', 'max') and args:
+            vals = list(self.iterate(args[0], e)) if len(args) == 1 else \
+                list(args)
+            if vals and all(isinstance(v, (int, float, str)) for v in vals):
+                return min(vals) if name == 'min' else max(vals)
         if name == 'frozenset':
             return frozenset(self.iterate(args[0], e)) if args else \
                 frozenset()
@@ -1049,6 +1121,10 @@ class Folder:
         raise AnalysisError(f'folding: builtin {name} at {mod.loc(e)}')
 
     def method(self, o, name, args, kwargs, e, mod, depth):
+        if isinstance(o, tuple) and len(o) == 2 and o[0] == 'repattern' and \
+                name in ('match', 'fullmatch', 'search') and args and all(
+                    isinstance(a, (str, int)) for a in args) and not kwargs:
+            return getattr(o[1], name)(*args) is not None or None
         if isinstance(o, str):
             if name in ('replace', 'startswith', 'endswith', 'lower',
                         'upper', 'split', 'strip', 'join', 'format',
